@@ -333,12 +333,12 @@ Section Theorems.
 
   Lemma bulk_one_spec : forall c s id oh s' x,
     bulk_one digest c s id oh = (s', x) ->
-    cold s' = cold s /\ (x = None \/ exists t, strip x = canon s id /\ x = Some (fst (fst (match x with Some y => y | None => ([], [], t) end)), snd (fst (match x with Some y => y | None => ([], [], t) end)), t)).
+    cold s' = cold s /\ (x = None \/ strip x = canon s id).
   Proof.
     intros c s id oh s' x H. unfold bulk_one in H. destruct oh as [h|]; [|inversion H; auto].
     destruct (canon_state s id (h_vec h) (h_tok h)) eqn:C.
     - apply canon_match in C. destruct C as [r [L1 L2]]. rewrite L1 in H. inversion H; subst. split; auto.
-      right. exists THot. unfold canon. rewrite L1. cbn. rewrite L2. auto.
+      right. unfold canon. rewrite L1. cbn. rewrite L2. auto.
     - inversion H; subst. split; [apply cold_discard|auto].
     - inversion H; subst. split; [apply cold_discard|auto].
     - inversion H; subst. auto.
@@ -357,7 +357,7 @@ Section Theorems.
       apply IH in B2. destruct B2 as [C2 [L2 F2]].
       split; [congruence|]. split; [cbn; congruence|].
       constructor.
-      + cbn. destruct X1 as [X1|[t [X1 _]]]; auto.
+      + cbn. destruct X1 as [X1|X1]; auto.
       + eapply Forall2_imp; [|exact F2]. intros p y Hy. cbn in Hy.
         destruct Hy as [Hy|Hy]; auto. right. rewrite Hy. unfold canon. rewrite C1. auto.
   Qed.
@@ -1037,6 +1037,45 @@ Section Theorems.
     destruct (reads_canonical c s adm id ids) as [B1 [B2 [B3 [_ [_ B6]]]]].
     assert (K : cold_docs s' = cold_docs s) by (unfold cold_docs; rewrite C; auto).
     rewrite A1, A2, A3, A6, B1, B2, B3, B6, K. auto.
+  Qed.
+
+  (* end to end: after ANY guarded API history the canonical store is the abstract map obtained by
+     folding the specification over the same operations (latest successful write wins) *)
+  Definition lk_eq (d d' : list (N * (vec * meta))) : Prop := forall k, lookup k d = lookup k d'.
+
+  Lemma spec_insert_equiv : forall d d' id v m, lk_eq d d' -> lk_eq (spec_insert d id v m) (spec_insert d' id v m).
+  Proof.
+    unfold lk_eq, spec_insert. intros d d' id v m H k. destruct (valid v); auto.
+    rewrite !lookup_put. destruct (N.eqb id k); auto.
+  Qed.
+
+  Lemma spec_step_equiv : forall o d d', lk_eq d d' -> lk_eq (spec_step d o) (spec_step d' o).
+  Proof.
+    intros o d d' H. destruct o; cbn [spec_step]; auto.
+    - apply spec_insert_equiv; auto.
+    - intros k. rewrite !lookup_remove. destruct (N.eqb id k); auto.
+    - intros k. rewrite !lookup_remove_all. destruct (existsb (N.eqb k) ids); auto.
+    - rewrite <- (H id). destruct (lookup id d) as [[v0 m0]|]; auto.
+      intros k. rewrite !lookup_put. destruct (N.eqb id k); auto.
+    - revert d d' H. induction docs as [|x r IH]; cbn; intros d d' H; auto.
+      apply IH. apply spec_insert_equiv; auto.
+  Qed.
+
+  Theorem history_refines : forall c docs ops s,
+    run_guarded c (init docs) ops = Some s ->
+    forall k, lookup k (cold_docs s) = lookup k (fold_left spec_step ops (cold_docs (init docs))).
+  Proof.
+    intros c docs ops.
+    assert (G : forall ops s0 d0, no_orphan s0 -> lk_eq (cold_docs s0) d0 ->
+              forall s, run_guarded c s0 ops = Some s ->
+              lk_eq (cold_docs s) (fold_left spec_step ops d0)).
+    { induction ops0 as [|o r IH]; cbn; intros s0 d0 NO E s H.
+      - inversion H; subst. auto.
+      - destruct (guard s0 o) eqn:Gd; [|discriminate].
+        destruct (step_cold_no_orphan c s0 o NO) as [K N1].
+        eapply IH; [apply N1; auto| |exact H].
+        intros k. rewrite K. apply spec_step_equiv. auto. }
+    intros s H. eapply G; eauto. apply init_no_orphan. intros k. auto.
   Qed.
 
   (* final forms pinned in Properties/C20.v *)
